@@ -180,11 +180,15 @@ type Case struct {
 	G      uint64 // global case counter (replay key)
 	R      *Rand
 	Detail func() interface{} // lazily builds the replay detail
+	KeyTag string             // prefix for the attribution keys of this case's violations (input sub-domain)
 	viol   bool
 }
 
 func (c *Case) Violate(key, format string, args ...interface{}) {
 	c.viol = true
+	if c.KeyTag != "" {
+		key = c.KeyTag + ":" + key
+	}
 	var d interface{}
 	if c.Detail != nil {
 		d = c.Detail()
@@ -585,10 +589,10 @@ func parentMain(spec *Spec, tier string, seed int64) int {
 	printedViol := map[string]int{}
 	nNew := 0
 	for _, v := range p.Viols {
-		if what, ok := kf[v.Key]; ok {
-			if !printedKnown[v.Key] {
-				printedKnown[v.Key] = true
-				fmt.Printf("KNOWN-FINDING: property=%s %s %s\n", spec.ID, v.Key, what)
+		if fk, what, ok := matchKnown(kf, v.Key); ok {
+			if !printedKnown[fk] {
+				printedKnown[fk] = true
+				fmt.Printf("KNOWN-FINDING: property=%s %s %s\n", spec.ID, fk, what)
 			}
 			continue
 		}
@@ -828,6 +832,20 @@ func loadKnown(id string) map[string]string {
 		}
 	}
 	return out
+}
+
+// matchKnown: exact key, or a listed key ending in '*' that is a prefix of the violation's
+// key (an input sub-domain tagged by Case.KeyTag, whatever the symptom).
+func matchKnown(kf map[string]string, key string) (string, string, bool) {
+	if what, ok := kf[key]; ok {
+		return key, what, true
+	}
+	for k, what := range kf {
+		if strings.HasSuffix(k, "*") && strings.HasPrefix(key, k[:len(k)-1]) {
+			return k, what, true
+		}
+	}
+	return "", "", false
 }
 
 func replayMain(spec *Spec, path string) int {
